@@ -70,6 +70,7 @@ def run(module, cfg, on_line=None, workers=1, simulate=None, depth=None, seed=No
     res = TLCResult()
     t0 = time.time()
     tail = []
+    stopped = False
     proc = subprocess.Popen(cmd, cwd=cwd or SPEC_DIR, stdout=subprocess.PIPE, stderr=subprocess.STDOUT,
                             env=e, text=True, bufsize=1 << 20)
     try:
@@ -79,6 +80,11 @@ def run(module, cfg, on_line=None, workers=1, simulate=None, depth=None, seed=No
                 if on_line is not None:
                     try:
                         on_line(json.loads(json.loads(line)))
+                    except StopIteration:
+                        # the consumer has all the cases it wants (simulation runs only)
+                        stopped = True
+                        proc.kill()
+                        break
                     except json.JSONDecodeError as ex:
                         raise TLCError("unparsable case line from TLC: %s: %r" % (ex, line[:200]))
                 continue
@@ -121,6 +127,11 @@ def run(module, cfg, on_line=None, workers=1, simulate=None, depth=None, seed=No
     res.error_text = text
     if res.violated:
         res.ok = False
+        return res
+    if stopped:
+        res.ok = True
+        if not res.states:
+            res.states = res.distinct = res.lines
         return res
     if proc.returncode != 0 or ("Error:" in text and "Model checking completed. No error" not in text and simulate is None):
         raise TLCError("TLC failed on %s/%s (rc=%s):\n%s" % (module, cfg, proc.returncode, text[-3000:]))
